@@ -259,6 +259,7 @@ def harness(ctx: Ctx):
 
     spec = LoopSpec(invariant=inv_goals, modifies=("t_loop",), heap_modifies=[("Tensor", "_grad"), ("Tensor", "_view_grad")], havoc=havoc)
     spec.assume_invariant = inv_hyps
+    spec.expect_iterable = (NV[cr[t]], lambda j: inp(t, j))  # every input of the creator is visited
     cfg.loop_specs[(Q, 0)] = spec
 
     # ---- run ------------------------------------------------------------------------------------------------------
